@@ -33,8 +33,19 @@ def sortBytes (l : List Bytes) : List Bytes := l.foldr insertSorted []
 def names (r : Registry) : List Bytes := sortBytes (r.map Prod.fst)
 end Registry
 
-/-- ASCII `strings.ToLower` (exact on the ASCII names concerned) -/
+/-- ASCII `strings.ToLower` -/
 def asciiLower (s : Bytes) : Bytes := s.map (fun b => if 65 ≤ b && b ≤ 90 then b + 32 else b)
+
+/-- `strings.ToLower` as far as it matters for comparing with the five ASCII sub-package names:
+    ASCII letters fold, and the only non-ASCII code points whose Unicode lower case is an ASCII
+    letter do too: U+212A KELVIN SIGN (E2 84 AA) → `k`, U+0130 (C4 B0) → `i`.  Every other
+    non-ASCII rune lower-cases to a non-ASCII rune (and invalid UTF-8 to U+FFFD), which can never
+    equal an ASCII name, so leaving those bytes alone decides the comparison the same way. -/
+def goLower : Bytes → Bytes
+  | 0xE2 :: 0x84 :: 0xAA :: rest => 0x6B :: goLower rest
+  | 0xC4 :: 0xB0 :: rest => 0x69 :: goLower rest
+  | b :: rest => (if 65 ≤ b && b ≤ 90 then b + 32 else b) :: goLower rest
+  | [] => []
 
 /-- `strings.Split(style, ".")` -/
 def splitDot : Bytes → List Bytes
@@ -57,7 +68,7 @@ def defaultDecoration : Decoration :=   -- UTF8BoxHeavy(); the concrete value co
 def resolveStyle (reg : Registry) (heavy : Decoration) (style : Bytes) : Format :=
   let sections := splitDot style
   let first := sections.headD []
-  let low := asciiLower first
+  let low := goLower first
   if low = bytesOfString "csv" then .csv
   else if low = bytesOfString "html" then .html
   else if low = bytesOfString "markdown" then .markdown
